@@ -166,8 +166,9 @@ class Ctx:
         self._replay_bin = build_replay()
         return self._replay_bin
 
-    def run_scenario(self, text, tag='s'):
-        """run a scenario natively; returns (path_of_scenario_file, list of (lineno, cmd, result))"""
+    def run_scenario(self, text, tag='s', strace=False, keep_work=False):
+        """run a scenario natively; returns (path_of_scenario_file, list of (lineno, cmd, result))
+        strace=True: additionally returns the syscall log (list of lines) as third element; keep_work: do not delete $DIR"""
         binp = self.replay_bin()
         d = os.path.join(os.environ.get('VERIF_EVIDENCE_DIR', os.path.join(VERIF, 'evidence')), 'replays')
         os.makedirs(d, exist_ok=True)
@@ -179,22 +180,28 @@ class Ctx:
         spath = os.path.join(d, f'{self.prop}-{tag}-{h}.scn')
         with open(spath, 'w') as fh:
             fh.write(f'# replay: {binp} <this file>   (built from /repo with --cfg fjall_verif)\n' + body)
-        try:
-            p = subprocess.run([binp, spath], stdout=subprocess.PIPE, stderr=subprocess.PIPE, text=True, timeout=300)
-        finally:
-            pass
+        cmd = [binp, spath]
+        tracef = os.path.join(work, 'strace.log')
+        if strace:
+            cmd = ['strace', '-f', '-o', tracef, '-e', 'trace=fsync,fdatasync,openat,write,pwrite64,ftruncate,close,unlink,unlinkat,rename,renameat', '-s', '24'] + cmd
+        p = subprocess.run(cmd, stdout=subprocess.PIPE, stderr=subprocess.PIPE, text=True, timeout=300)
+        trace_lines = open(tracef).read().split('\n') if strace and os.path.exists(tracef) else []
+        self.last_work = work
         out = []
         for l in p.stdout.split('\n'):
             m = re.match(r'^R (\d+) (\S+) => (.*)$', l)
             if m:
                 out.append((int(m.group(1)) - 1, m.group(2), m.group(3)))   # minus the header line
-        shutil.rmtree(work, ignore_errors=True)
+        if not keep_work:
+            shutil.rmtree(work, ignore_errors=True)
         if p.returncode != 0:
             out.append((-1, 'CRASH', f'exit={p.returncode} stderr={p.stderr[-400:]}'))
         unknown = [r for _i, _c, r in out if r.startswith('err:UnknownCommand') or r.startswith('err:BadCmd')]
         if unknown:
             # a scenario the driver cannot execute proves nothing: never let it confirm a candidate
             raise RuntimeError(f'replay driver cannot execute the scenario: {unknown[:2]}')
+        if strace:
+            return spath, out, trace_lines
         return spath, out
 
     # ---------------- finish
